@@ -252,6 +252,21 @@ def op_doctrans(d):
     return _r(p)
 
 
+def op_doctrans_numpydoc(d):
+    # the *same* source text as op_doctrans, towards another style: anything remembered per source string shows up here
+    p = _w(d, "dt.py", FN_PERM + "\n\n" + CLASS_MERGE)
+    _main(["doctrans", "--filename", p, "--format", "numpydoc", "--type-annotations"])
+    return _r(p)
+
+
+def op_cst_parse_doctrans_source(d):
+    # the concrete syntax tree of that same source text (values and line spans)
+    import cdd.shared.cst
+
+    nodes = cdd.shared.cst.cst_parse(FN_PERM + "\n\n" + CLASS_MERGE)
+    return json.dumps([[type(n).__name__, getattr(n, "line_no_start", None), getattr(n, "line_no_end", None), n.value] for n in nodes])
+
+
 SYNC_CLASS = '''class ConfigClass(object):
     """
     Summary.
@@ -403,6 +418,8 @@ OPS = OrderedDict(
         ("gen_prepend", op_gen_prepend),
         ("gen_class", op_gen_class),
         ("doctrans", op_doctrans),
+        ("doctrans_numpydoc", op_doctrans_numpydoc),
+        ("cst_parse_doctrans_source", op_cst_parse_doctrans_source),
         ("sync", op_sync),
         ("import_openapi_emit_utils", op_import_openapi_emit_utils),
         ("get_module_contents", op_get_module_contents),
